@@ -422,14 +422,36 @@ namespace riddle
         std::vector<const statement *> stmnts;
 
         if (!match(VOID_ID))
-        {
-            do
+            switch (tk->sym)
             {
-                if (!match(ID_ID))
-                    error("expected identifier..");
-                rt.emplace_back(*static_cast<id_token *>(tks[pos - 2]));
-            } while (match(DOT_ID));
-        }
+            case BOOL_ID:
+                rt.emplace_back(id_token(0, 0, 0, 0, BOOL_KEYWORD));
+                tk = next();
+                break;
+            case INT_ID:
+                rt.emplace_back(id_token(0, 0, 0, 0, INT_KEYWORD));
+                tk = next();
+                break;
+            case REAL_ID:
+                rt.emplace_back(id_token(0, 0, 0, 0, REAL_KEYWORD));
+                tk = next();
+                break;
+            case TP_ID:
+                rt.emplace_back(id_token(0, 0, 0, 0, TP_KEYWORD));
+                tk = next();
+                break;
+            case STRING_ID:
+                rt.emplace_back(id_token(0, 0, 0, 0, STRING_KEYWORD));
+                tk = next();
+                break;
+            default:
+                do
+                {
+                    if (!match(ID_ID))
+                        error("expected identifier..");
+                    rt.emplace_back(*static_cast<id_token *>(tks[pos - 2]));
+                } while (match(DOT_ID));
+            }
 
         if (!match(ID_ID))
             error("expected identifier..");
